@@ -100,6 +100,9 @@ Sel(verts, cells, ar, box, inv) ==
         \* what the code returns None for: a miss (both classes), an empty selection (cell objects,
         \* cell_object.py:74).  Points return an all-False mask / an empty copy instead.
         code_none |-> miss \/ (ar # 0 /\ ~any),
+        \* The copy record describes the live copy AND the copy as stored in the file (what a later reader
+        \* gets): copy_to_parent saves vertices / cells / values when the entity is created
+        \* (workspace.py copy_to_parent -> create_entity -> save_entity); the harness compares both views.
         \* points.py:152 vertices[mask] ; cell_object.py:172-182 new_id re-indexing, new_cells[cell_mask];
         \* data.py:103 values[mask] for VERTEX data, values[cell_mask] for CELL data
         copy |-> [verts |-> [i \in 1..Len(kept) |-> kept[i] - 1],
